@@ -4,6 +4,7 @@ import (
 	"bufio"
 	"encoding/json"
 	"fmt"
+	"golang.org/x/sys/cpu"
 	"hash/fnv"
 	"os"
 	"runtime/debug"
@@ -59,6 +60,8 @@ type W struct {
 	nontriv  map[uint64]struct{}
 	failures int
 	cur      uint64
+	variant  string
+	aux      any // per-worker resource of the property runner (e.g. a guard region)
 }
 
 func newW(prop, tier string, seed uint64, outPath, journalPath string) *W {
@@ -109,6 +112,9 @@ func (w *W) Sample(s any) {
 
 func (w *W) Fail(f Failure) {
 	f.Prop = w.prop
+	if w.variant != "" {
+		f.Sub = w.variant + "|" + f.Sub
+	}
 	if len(f.Got) > 400 {
 		f.Got = f.Got[:400] + "…#" + digest(f.Got)
 	}
@@ -161,6 +167,10 @@ func workerMain(args []string) {
 		os.Exit(2)
 	}
 	w := newW(prop, tier, seed, args[4], args[5])
+	w.variant = os.Getenv("VERIF_VARIANT")
+	if w.variant != "" {
+		w.Count(fmt.Sprintf("variant:%s avx2=%v ssse3=%v (worker processes)", w.variant, cpu.X86.HasAVX2, cpu.X86.HasSSSE3), 1)
+	}
 	if p.Init != nil {
 		p.Init(w)
 	}
